@@ -99,6 +99,7 @@ func main() {
 		fmt.Printf("UNDECIDED property=%s reason=not-registered\n", *flagProp)
 		os.Exit(exitUndecided)
 	}
+	loadExtraMutants(p)
 	if *flagMutant >= 0 {
 		os.Exit(runMutantChild(p, *flagMutant))
 	}
